@@ -130,6 +130,25 @@ func (d *Driver) Snapshot(ctx context.Context) (migrate.RestoreFunc, error) {
 	if !(r == nil || (len(r.Schemas) == 1 && r.Schemas[0].Name == mainFile && len(r.Schemas[0].Tables) == 0)) {
 		return nil, &migrate.NotCleanError{State: r, Reason: fmt.Sprintf("found table %q", r.Schemas[0].Tables[0].Name)}
 	}
+	// Restoring the snapshot drops views and triggers as well.
+	// Hence, a database that contains any of them is not clean.
+	rows, err := d.QueryContext(ctx, "SELECT type, name FROM sqlite_master WHERE type IN ('view', 'trigger') LIMIT 1")
+	if err != nil {
+		return nil, fmt.Errorf("sql/sqlite: querying views and triggers: %w", err)
+	}
+	var typ, name string
+	if rows.Next() {
+		err = rows.Scan(&typ, &name)
+	}
+	if cerr := rows.Close(); err == nil {
+		err = cerr
+	}
+	if err != nil {
+		return nil, err
+	}
+	if name != "" {
+		return nil, &migrate.NotCleanError{State: r, Reason: fmt.Sprintf("found %s %q", typ, name)}
+	}
 	return func(ctx context.Context) error {
 		for _, stmt := range []string{
 			"PRAGMA writable_schema = 1;",
